@@ -14,7 +14,7 @@ Hypotheses used below (all evaluated by the driver op `day_grid` / the harness o
   table of Pacific/Apia around 2011-12-30, where a whole day was skipped, with `k = 1`);
 * `z.wall start ≤ z.wall stop`: the end is not earlier than the start on the local clock;
 * for "no point after the end" one of: `WallOrder z` (semantic: an instant whose wall time is unique does not come after an
-  instant with the same or a later wall time) or the decidable `endOK z start stop k` (the offset at the end is the offset
+  instant with the same or a later wall time; it follows from the decidable `z.regular`, `wallOrder_of_regular`) or the decidable `endOK z start stop k` (the offset at the end is the offset
   `rem` seconds earlier, `rem` = what whole periods leave over; trivially true when the end lies on the lattice of days).
 -/
 namespace EAO.C19D
@@ -228,10 +228,30 @@ theorem midnight_change_witness :
 
 /-! ## the order hypothesis -/
 
-/- TARGET (not proved here): `WallOrder z` for every table that is REGULAR in the sense that a clock set back by `d` seconds
-   is not changed again within `d` seconds before or after (`t_{i+1} - t_i ≥ o_{i-1} - o_i` and `t_i - t_{i-1} ≥ o_{i-1} - o_i`
-   for every drop) - all tables of real zones.  Proved below: tables without drop.  For grids the decidable `endOK` is used
-   instead (evaluated by the driver on every case). -/
+/- `WallOrder z` for every table that is REGULAR (`Zone.regular`, decidable, `EAO/Lemmas/DstGrid.lean`): the instants of
+   the table do not decrease, and a clock set back by `d` seconds is not changed again within `d` seconds before or after
+   (`t_{i+1} - t_i ≥ o_{i-1} - o_i` and `t_i - t_{i-1} ≥ o_{i-1} - o_i` for every drop) - all tables of real zones.  Tables
+   without drop: `wallOrder_of_no_drop` (no condition on the gaps).  For grids the decidable `endOK` remains available
+   (evaluated by the driver on every case). -/
+
+/-- the order hypothesis holds for every regular table: instants in order, every setting-back of the clock at most as large
+    as the gap to the transition before and to the transition after it -/
+theorem wallOrder_of_regular (z : Zone) (hr : z.regular = true) : WallOrder z :=
+  wallOrder_of_regular' z hr
+
+/-- the CET table of 2021 is regular (spring forward, autumn back by 1 h, seven months apart), so it satisfies the order
+    hypothesis; a table that sets the clock forward by 2 h and back by 1 h only 1000 s later is not regular, and the order
+    hypothesis FAILS for it: the instant 1000 has the wall time 4600 alone, yet comes after the instant 500 whose wall time
+    is 7700 -/
+theorem regular_witness :
+    cet2021.regular = true ∧ WallOrder cet2021 ∧
+    ({ base := 0, trans := [(0, 7200), (1000, 3600)] } : Zone).regular = false ∧
+    ¬ WallOrder { base := 0, trans := [(0, 7200), (1000, 3600)] } := by
+  refine ⟨by decide +kernel, wallOrder_of_regular _ (by decide +kernel), by decide +kernel, fun ho => ?_⟩
+  have hloc : ({ base := 0, trans := [(0, 7200), (1000, 3600)] } : Zone).localize 4600 = .ok 1000 := by decide +kernel
+  have hu := ((localize_ok_iff _ _ _).mp hloc).2
+  have := ho 1000 500 (by decide +kernel) (fun u' hu' => hu u' (by rw [hu']; decide +kernel))
+  omega
 
 /-- the order hypothesis holds for every table whose offsets never decrease in time (only changes forward) -/
 theorem wallOrder_of_no_drop (z : Zone) (ho : (z.base :: z.trans.map (·.2)).Pairwise (· ≤ ·))
@@ -254,6 +274,9 @@ example : cet2021.localize 1616898600 = .error .nonexistent ∧ cet2021.localize
 /-- a table with forward changes only satisfies the order hypothesis -/
 example : WallOrder { base := 3600, trans := [(1616893200, 7200)] } :=
   wallOrder_of_no_drop _ (by decide) (by decide)
+/-- a table with a drop larger than the gap to the next transition is not regular; the same drop with room is -/
+example : ({ base := 7200, trans := [(1000, 3600), (2000, 7200)] } : Zone).regular = false ∧
+    ({ base := 7200, trans := [(1000, 3600), (4600, 7200)] } : Zone).regular = true := by decide +kernel
 /-- the spread hypothesis fails for the table of Pacific/Apia at the end of 2011 (a whole day skipped) with `k = 1` -/
 example : ({ base := -36000, trans := [(1325239200, 50400)] } : Zone).spreadBelow ((1 * 86400 : Nat) : Int) = false := by
   decide +kernel
